@@ -97,6 +97,12 @@ class BatchLoader(LoaderBase):
             image_id = len(self._images)
             while image_id in self._images:
                 image_id += 1
+        elif image_id in self._images and self._images[image_id] is not image:
+            # NOTE: the molecules already registered with this ID would silently be loaded
+            # from the new tomogram.
+            raise ValueError(
+                f"Image ID {image_id!r} is already used for another tomogram."
+            )
         molecules = molecules.copy()
         molecules.features = molecules.features.with_columns(
             pl.Series(IMAGE_ID_LABEL, np.full((len(molecules)), image_id))
